@@ -7,6 +7,7 @@ mod lang;
 mod c16;
 mod c18;
 mod c10;
+mod eg;
 
 fn main() {
     common::install_panic_hook();
@@ -22,6 +23,7 @@ fn main() {
         "c16" => c16::main(&a),
         "c18" => c18::main(&a),
         "c10" => c10::main(&a),
+        "eg" => eg::main(&a),
         "features" => {
             println!("checks={} explanations={}", cfg!(feature = "checks"), cfg!(feature = "explanations"));
         }
